@@ -106,6 +106,7 @@ func c04(r *ev.Result, tier string) {
 	exploreProfiles(r, budget, c04Profiles(isQuick(tier))...)
 	/* The HTTP seam: the same clauses through the real handlers over TLS. */
 	c04HTTP(r)
+	quietSpell(r, "C04")
 	/* The real binary under every boolean flag: three shells in a row. */
 	{
 		base := ev.Scratch("c04-")
